@@ -43,6 +43,7 @@ EventOK(e) ==
     [] e.op = "xof" -> IF HC(e.sha)!XofAborts(e.n) THEN ~e.ok
                        ELSE e.ok /\ e.out = HC(e.sha)!Xof(e.msg, e.dst, e.n) /\ Len(e.out) = e.n
     [] e.op = "suite" -> SuiteOK(e)
+    [] e.op = "suiteabort" -> HC(e.sha)!XmdAborts(e.n, e.b) /\ ~e.ok /\ e.ptnil     \* weak hash: error and no point
     [] e.op = "ell2" ->          \* internal/elligator.EdwardsFlavor on a raw field element (overlay)
          LET q == El!MapToCurve(FFromBytes(e.r)) IN e.out = EncodePoint(FromAffine(q))
     [] OTHER -> FALSE
